@@ -932,5 +932,185 @@ Section Sound.
           destruct (modpath_eqb q p) eqn:Eq; [left; apply mpeq_true; exact Eq|].
           apply mpeq_false in Eq. rewrite find_update_other in Hq by assumption. right. apply G2; assumption.
     Qed.
+
+    Lemma RB : forall stmts ga st gaf, (forall s, In s stmts -> In s (body m)) -> BI st ga ->
+      sbody B P (find_sys (firstn i C)) ga stmts = Ok gaf ->
+      exists st', run_body B P (load B P f') p st stmts = Ok st' /\ BI st' gaf /\ Ext' st st'.
+    Proof.
+      induction stmts as [|s r IH]; intros ga st gaf Hsub HB Hs.
+      - simpl in Hs. inversion Hs; subst. exists st. simpl. split; [reflexivity|]. split; [exact HB | apply Ext'_refl].
+      - simpl in Hs. destruct (pure_step B P (find_sys (firstn i C)) ga s) as [ga1|e] eqn:E1; [|discriminate].
+        destruct (STEP s ga ga1 st (Hsub s (or_introl eq_refl)) HB E1) as [st1 [H1 [H2 H3]]].
+        simpl. rewrite H1.
+        destruct (IH ga1 st1 gaf (fun s0 H => Hsub s0 (or_intror H)) H2 Hs) as [st' [G1 [G2 G3]]].
+        exists st'. split; [exact G1|]. split; [exact G2 | eapply Ext'_trans; eauto].
+    Qed.
   End Body.
+
+  Lemma in_sys_app_l : forall st l q, in_sys st q = true -> in_sys (st ++ l) q = true.
+  Proof.
+    intros st l q H. apply in_sys_true in H. destruct H as [e He]. apply in_sys_true. exists e.
+    rewrite find_sys_app, He. reflexivity.
+  Qed.
+
+  (* ---------------------------------------------------------------- the main lemma: induction over the import order *)
+  Lemma load_ok : forall n p i, idx p = Some i -> i < n -> forall f, i + 2 <= f -> forall st,
+    Inv st -> Low st (S i) ->
+    (forall a, In a (proper_prefixes p) -> has_mod P a = true -> in_sys st a = true) ->
+    exists st', load B P f st p = Ok st' /\ Inv st' /\ Ext st st' /\
+                (exists ms, find_sys st' p = Some ms /\ ms_done ms = true).
+  Proof.
+    induction n as [|n IHn]; intros p i Hi Hlt f Hf st HI HL Hanc; [lia|].
+    destruct f as [|f']; [lia|]. simpl.
+    destruct (in_sys st p) eqn:Ein.
+    - exists st. split; [reflexivity|]. split; [exact HI|]. split; [apply Ext_refl|].
+      apply in_sys_true in Ein. destruct Ein as [ms Hms]. exists ms. split; [exact Hms|].
+      destruct (ms_done ms) eqn:Hd; [reflexivity|].
+      destruct (HL p ms Hms Hd) as [k [Hk Hle]]. assert (k = i) by congruence. lia.
+    - pose proof (ord_mod p i Hi) as Hmod. apply has_mod_true in Hmod. destruct Hmod as [m Hm]. rewrite Hm.
+      destruct (canon_entry p i Hi) as [m' [g [al [Hm' [Hsb [Hex Hfind]]]]]].
+      assert (m' = m) by congruence. subst m'.
+      set (e0 := mkMS p false [] None).
+      assert (Hnone : find_sys st p = None) by (unfold in_sys in Ein; destruct (find_sys st p); [discriminate | reflexivity]).
+      assert (Hother : forall q, q <> p -> find_sys (st ++ [e0]) q = find_sys st q)
+        by (intros q Hq; apply find_app_fresh_other; exact Hq).
+      assert (Hsame : find_sys (st ++ [e0]) p = Some e0) by (apply (find_app_fresh_same st e0); exact Hnone).
+      destruct HI as [I1 [I3 I4]].
+      assert (HB1 : BI p i (st ++ [e0]) ([], None)).
+      { split; [split; [|split]|split].
+        - intros q ms Hq Hd. destruct (modpath_eqb q p) eqn:Eq.
+          + apply mpeq_true in Eq. subst q. rewrite Hsame in Hq. inversion Hq; subst ms. discriminate.
+          + apply mpeq_false in Eq. rewrite Hother in Hq by exact Eq. apply I1; assumption.
+        - intros q Hq. destruct (modpath_eqb q p) eqn:Eq.
+          + apply mpeq_true in Eq. subst q. apply (ord_mod p i Hi).
+          + apply mpeq_false in Eq. apply I3. unfold in_sys in *. rewrite Hother in Hq by exact Eq. exact Hq.
+        - intros q a Hq Ha Hma. apply in_sys_app_l. destruct (modpath_eqb q p) eqn:Eq.
+          + apply mpeq_true in Eq. subst q. apply Hanc; assumption.
+          + apply mpeq_false in Eq. apply (I4 q a); try assumption.
+            unfold in_sys in *. rewrite Hother in Hq by exact Eq. exact Hq.
+        - exact Hsame.
+        - intros q ms Hq Hd. destruct (modpath_eqb q p) eqn:Eq; [left; apply mpeq_true; exact Eq|].
+          right. apply mpeq_false in Eq. rewrite Hother in Hq by exact Eq. exact (HL q ms Hq Hd). }
+      assert (IHload : forall q k, idx q = Some k -> k < i -> forall st0,
+                 Inv st0 -> Low st0 (S k) ->
+                 (forall a, In a (proper_prefixes q) -> has_mod P a = true -> in_sys st0 a = true) ->
+                 exists st', load B P f' st0 q = Ok st' /\ Inv st' /\ Ext st0 st' /\
+                             (exists ms, find_sys st' q = Some ms /\ ms_done ms = true)).
+      { intros q k Hk Hkl st0 HI0 HL0 Hanc0. apply (IHn q k Hk); try assumption; lia. }
+      destruct (RB p i m f' Hi Hm ltac:(lia) IHload (body m) ([], None) (st ++ [e0]) (g, al)
+                   (fun s H => H) HB1 Hsb) as [st2 [H1 [H2 H3]]].
+      rewrite H1. destruct H2 as [[J1 [J3 J4]] [He2 Hl2]]. simpl in He2.
+      assert (Hent : entry_of st2 p = (g, al)) by (unfold entry_of; rewrite He2; reflexivity).
+      rewrite Hent. simpl fst. simpl snd. rewrite Hex.
+      assert (Hf0 : forall x, ms_path (mkMS (ms_path x) true (ms_globals x) (ms_all x)) = ms_path x) by reflexivity.
+      eexists. split; [reflexivity|]. split; [split; [|split]|split].
+      + intros q ms Hq Hd. destruct (modpath_eqb q p) eqn:Eq.
+        * apply mpeq_true in Eq. subst q. rewrite find_update_same in Hq by exact Hf0. rewrite He2 in Hq.
+          simpl in Hq. inversion Hq; subst ms. exact Hfind.
+        * apply mpeq_false in Eq. rewrite find_update_other in Hq by assumption. apply J1; assumption.
+      + intros q Hq. rewrite in_sys_update in Hq by exact Hf0. apply J3. exact Hq.
+      + intros q a Hq Ha Hma. rewrite in_sys_update in * by exact Hf0. eapply J4; eauto.
+      + destruct H3 as [G1 G2]. split.
+        * intros q ms Hq. assert (Hne : q <> p) by (intro; subst q; congruence).
+          rewrite find_update_other by assumption. apply G1; [exact Hne|]. rewrite Hother by exact Hne. exact Hq.
+        * intros q ms Hq Hd. destruct (modpath_eqb q p) eqn:Eq.
+          -- apply mpeq_true in Eq. subst q. rewrite find_update_same in Hq by exact Hf0. rewrite He2 in Hq.
+             simpl in Hq. inversion Hq; subst ms. discriminate.
+          -- apply mpeq_false in Eq. rewrite find_update_other in Hq by assumption.
+             destruct (G2 q ms Hq Hd) as [E|E]; [contradiction|]. rewrite Hother in E by exact Eq. exact E.
+      + eexists. split; [rewrite find_update_same by exact Hf0; rewrite He2; reflexivity | reflexivity].
+  Qed.
+
+  (* ---------------------------------------------------------------- `import m` in a fresh interpreter *)
+  Definition AllDone (st : sysmods) : Prop := forall q ms, find_sys st q = Some ms -> ms_done ms = true.
+
+  Lemma order_le : length order <= length P.
+  Proof.
+    rewrite <- (map_length path P). apply NoDup_incl_length; [apply ord_nodup|].
+    intros q Hq. destruct (index_of_In order q Hq) as [k Hk].
+    pose proof (ord_mod q k Hk) as Hmq. apply has_mod_true in Hmq. destruct Hmq as [m Hm].
+    apply find_mod_spec in Hm. destruct Hm as [Hin Hp]. apply in_map_iff. exists m. split; assumption.
+  Qed.
+
+  Lemma mod_idx : forall q, has_mod P q = true -> exists k, idx q = Some k.
+  Proof.
+    intros q Hq. apply has_mod_true in Hq. destruct Hq as [m Hm]. apply find_mod_spec in Hm.
+    destruct Hm as [Hin Hp]. destruct (ord_edges m Hin) as [k [Hk _]]. rewrite Hp in Hk. exists k. exact Hk.
+  Qed.
+
+  Lemma root_ONE : forall st q, Inv st -> AllDone st -> has_mod P q = true ->
+    (forall a, In a (proper_prefixes q) -> has_mod P a = true -> in_sys st a = true) ->
+    exists st', load B P (size P) st q = Ok st' /\ Inv st' /\ AllDone st' /\ Ext st st' /\ in_sys st' q = true.
+  Proof.
+    intros st q HI HD Hq Hanc. destruct (mod_idx q Hq) as [k Hk].
+    assert (Hlt : k < length order) by (apply (index_of_lt order q k Hk)).
+    pose proof order_le as Hle.
+    destruct (load_ok (S k) q k Hk ltac:(lia) (size P) ltac:(unfold size; lia) st HI) as [st' [H1 [H2 [H3 [ms [H4 H5]]]]]].
+    - intros q0 ms Hq0 Hd. rewrite (HD q0 ms Hq0) in Hd. discriminate.
+    - exact Hanc.
+    - exists st'. split; [exact H1|]. split; [exact H2|]. split; [|split; [exact H3|]].
+      + intros q0 ms0 Hq0. destruct (ms_done ms0) eqn:Hd; [reflexivity|].
+        destruct H3 as [_ G2]. specialize (G2 q0 ms0 Hq0 Hd). rewrite (HD q0 ms0 G2) in Hd. discriminate.
+      + apply in_sys_true. exists ms. exact H4.
+  Qed.
+
+  Lemma root_LIST : forall l pre st, Inv st -> AllDone st ->
+    (forall a, In a pre -> has_mod P a = true -> in_sys st a = true) ->
+    (forall l1 q l2, l = l1 ++ q :: l2 -> forall a, In a (proper_prefixes q) -> In a (pre ++ l1)) ->
+    exists st', load_list P (load B P (size P)) st l = Ok st' /\ Inv st' /\ AllDone st' /\ Ext st st' /\
+                (forall a, In a (pre ++ l) -> has_mod P a = true -> in_sys st' a = true).
+  Proof.
+    induction l as [|q l IH]; intros pre st HI HD Hpre Hdec.
+    - exists st. simpl. split; [reflexivity|]. split; [exact HI|]. split; [exact HD|]. split; [apply Ext_refl|].
+      rewrite app_nil_r. exact Hpre.
+    - cbn [load_list]. destruct (has_mod P q) eqn:Hq.
+      + assert (Hanc : forall a, In a (proper_prefixes q) -> has_mod P a = true -> in_sys st a = true).
+        { intros a Ha Hm'. apply Hpre; [|exact Hm'].
+          specialize (Hdec [] q l eq_refl a Ha). rewrite app_nil_r in Hdec. exact Hdec. }
+        destruct (root_ONE st q HI HD Hq Hanc) as [st1 [H1 [H2 [H2' [H3 H4]]]]]. rewrite H1.
+        destruct (IH (pre ++ [q]) st1 H2 H2') as [st' [G1 [G2 [G2' [G3 G4]]]]].
+        * intros a Ha Hm'. apply in_app_or in Ha. destruct Ha as [Ha|[<-|[]]].
+          -- eapply Ext_in_sys; [exact H3 | apply Hpre; assumption].
+          -- exact H4.
+        * intros l1 q' l2 El a Ha. rewrite <- app_assoc. simpl.
+          apply (Hdec (q :: l1) q' l2); [rewrite El; reflexivity | exact Ha].
+        * exists st'. split; [exact G1|]. split; [exact G2|]. split; [exact G2'|]. split; [eapply Ext_trans; eauto|].
+          intros a Ha. apply G4. rewrite <- app_assoc. exact Ha.
+      + destruct (IH (pre ++ [q]) st HI HD) as [st' [G1 [G2 [G2' [G3 G4]]]]].
+        * intros a Ha Hm'. apply in_app_or in Ha. destruct Ha as [Ha|[<-|[]]]; [apply Hpre; assumption | congruence].
+        * intros l1 q' l2 El a Ha. rewrite <- app_assoc. simpl.
+          apply (Hdec (q :: l1) q' l2); [rewrite El; reflexivity | exact Ha].
+        * exists st'. split; [exact G1|]. split; [exact G2|]. split; [exact G2'|]. split; [exact G3|].
+          intros a Ha. apply G4. rewrite <- app_assoc. exact Ha.
+  Qed.
+
+  Lemma Inv_nil : Inv [].
+  Proof. split; [|split]; intros; discriminate. Qed.
+
+  Theorem exec_mod_ok : forall m, In m P -> exists st, exec_mod B P (size P) (path m) = Ok st.
+  Proof.
+    intros m Hm. unfold exec_mod, load_chain.
+    destruct (root_LIST (proper_prefixes (path m)) [] [] Inv_nil) as [st1 [H1 [H2 [H2' [H3 H4]]]]].
+    - intros q ms Hq. discriminate.
+    - intros a [].
+    - intros l1 q l2 El a Ha. simpl.
+      apply (chain_ancestors_earlier (path m) l1 q (l2 ++ [path m])); [|exact Ha].
+      unfold chain_of. rewrite El, <- app_assoc. reflexivity.
+    - rewrite H1.
+      destruct (root_ONE st1 (path m) H2 H2' (find_mod_In P m Hm)) as [st' [G1 _]].
+      + intros a Ha. apply H4. exact Ha.
+      + exists st'. exact G1.
+  Qed.
 End Sound.
+
+(* pkg_ok is a sufficient condition: every module of the package imports from a fresh interpreter *)
+Theorem pkg_ok_sound : forall B pkg, pkg_ok B pkg = true ->
+  forall m, In m pkg -> exec_pkg B pkg (size pkg) m = Ok tt.
+Proof.
+  intros B pkg H m Hm. unfold pkg_ok, pkg_ok_conjuncts in H. simpl in H.
+  repeat (apply andb_true_iff in H; destruct H as [? H]).
+  unfold c_static in *. destruct (canon B pkg) as [C|e] eqn:EC; [|discriminate].
+  unfold exec_pkg.
+  destruct (exec_mod_ok B pkg C EC) with (m := m) as [st Hst]; try assumption.
+  rewrite Hst. reflexivity.
+Qed.
